@@ -6,13 +6,42 @@ From BX Require Import Base.Prelude Model.JsonAcct Model.Merkle Model.StateLedge
   Proofs.RefineStep Proofs.RefineFlush.
 Local Open Scope N_scope.
 
-(** * a store that reads as a given map *)
+(** * stores with the same tables (account records and code exactly, storage up to nil = empty) *)
+Record db_eq (d D : db) : Prop := {
+  de_acct : forall a, aget a (d_acct d) = aget a (d_acct D);
+  de_code : forall a, aget a (d_code d) = aget a (d_code D);
+  de_st : forall a k, db_st d a k = db_st D a k
+}.
+Lemma db_eq_refl d : db_eq d d.
+Proof. constructor; reflexivity. Qed.
+Lemma db_eq_trans d1 d2 d3 : db_eq d1 d2 -> db_eq d2 d3 -> db_eq d1 d3.
+Proof. intros [A1 A2 A3] [B1 B2 B3]. constructor; intros; [rewrite A1; apply B1 | rewrite A2; apply B2 | rewrite A3; apply B3]. Qed.
+
+Definition dbch (d : db) (a : N) : val := match aget a (d_acct d) with Some x => ac_ch x | None => None end.
+
+(** * a store that reads as a given map, with consistent code tables *)
+Section DbMatches.
+Context {e : env}.
 Record db_matches (d : db) (S : smap) : Prop := {
   dm_st : forall a k, db_st d a k = sm_st_get S a k;
   dm_ac : forall a, acct_rel (acct_view (aget a (d_acct d))) (sm_acct_get S a);
-  dm_code : d_code d = [];
-  dm_ch : forall a x, aget a (d_acct d) = Some x -> ac_ch x = None
+  dm_code : forall a, nb (aget a (d_code d)) = sa_code (sm_acct_get S a);
+  dm_t1 : forall a, ch_nonempty (dbch d a) = false -> aget a (d_code d) = None;
+  dm_k1 : forall a, ch_nonempty (dbch d a) = true -> dbch d a = Some (e_kec e (nb (aget a (d_code d))))
 }.
+
+Lemma db_matches_eq d D S : db_eq d D -> db_matches D S -> db_matches d S.
+Proof.
+  intros [E1 E2 E3] [M1 M2 M3 M4 M5].
+  assert (Hch : forall a, dbch d a = dbch D a) by (intro a; unfold dbch; rewrite E1; reflexivity).
+  constructor.
+  - intros a k. rewrite E3. apply M1.
+  - intros a. rewrite E1. apply M2.
+  - intros a. rewrite E2. apply M3.
+  - intros a. rewrite Hch, E2. apply M4.
+  - intros a. rewrite Hch, E2. apply M5.
+Qed.
+End DbMatches.
 
 Definition revert_all (d : db) (jn : journal) : db :=
   fold_right (fun en d' => revert_entry d' en) d (j_entries jn).
@@ -39,10 +68,20 @@ Proof.
   - destruct (a' =? je_addr en); reflexivity.
 Qed.
 
+Lemma revert_entry_code d en a' :
+  aget a' (d_code (revert_entry d en)) =
+  if a' =? je_addr en then (if je_cchg en then je_pcode en else aget a' (d_code d)) else aget a' (d_code d).
+Proof.
+  unfold revert_entry. cbn [d_code]. destruct (je_cchg en).
+  - destruct (je_pcode en) as [x|].
+    + rewrite aget_aput. destruct (a' =? je_addr en); reflexivity.
+    + rewrite aget_adel. destruct (a' =? je_addr en); reflexivity.
+  - destruct (a' =? je_addr en); reflexivity.
+Qed.
+
 Lemma revert_entry_rest d en :
-  d_jnl (revert_entry d en) = d_jnl d /\ d_min (revert_entry d en) = d_min d /\ d_max (revert_entry d en) = d_max d /\
-  (je_cchg en = false -> d_code (revert_entry d en) = d_code d).
-Proof. unfold revert_entry. cbn [d_jnl d_min d_max d_code]. repeat split. intros ->. reflexivity. Qed.
+  d_jnl (revert_entry d en) = d_jnl d /\ d_min (revert_entry d en) = d_min d /\ d_max (revert_entry d en) = d_max d.
+Proof. repeat split. Qed.
 
 (** the first entry of an account *)
 Definition jfind (a : N) (l : list jentry) : option jentry := find (fun en => je_addr en =? a) l.
@@ -94,24 +133,40 @@ Proof.
   - apply IH. exact Hn'.
 Qed.
 
-Lemma revert_fold_rest l : forall d,
-  (forall en, In en l -> je_cchg en = false) ->
-  let d' := fold_right (fun en d' => revert_entry d' en) d l in
-  d_jnl d' = d_jnl d /\ d_min d' = d_min d /\ d_max d' = d_max d /\ d_code d' = d_code d.
+Lemma revert_fold_code l : forall d a, NoDup (map je_addr l) ->
+  aget a (d_code (fold_right (fun en d' => revert_entry d' en) d l)) =
+  match jfind a l with
+  | Some en => if je_cchg en then je_pcode en else aget a (d_code d)
+  | None => aget a (d_code d)
+  end.
 Proof.
-  induction l as [|en t IH]; intros d Hc; cbv zeta; [repeat split|].
-  cbn [fold_right]. destruct (revert_entry_rest (fold_right (fun en0 d' => revert_entry d' en0) d t) en) as [A1 [A2 [A3 A4]]].
-  destruct (IH d) as [B1 [B2 [B3 B4]]]; [intros en' Hin; apply Hc; right; exact Hin|].
-  rewrite A1, A2, A3, (A4 (Hc en (or_introl eq_refl))). repeat split; assumption.
+  induction l as [|en t IH]; intros d a Hn; [reflexivity|].
+  inversion Hn as [|? ? Hni Hn']; subst.
+  cbn [fold_right jfind find]. rewrite revert_entry_code. rewrite (N.eqb_sym (je_addr en) a).
+  destruct (a =? je_addr en) eqn:E.
+  - rewrite (IH d a Hn'). apply N.eqb_eq in E. subst a.
+    assert (Hnone : jfind (je_addr en) t = None).
+    { unfold jfind. destruct (find (fun en0 => je_addr en0 =? je_addr en) t) as [en'|] eqn:Ef; [| reflexivity].
+      apply find_some in Ef. destruct Ef as [Hin He]. apply N.eqb_eq in He.
+      exfalso. apply Hni. rewrite <- He. apply in_map. exact Hin. }
+    rewrite Hnone. reflexivity.
+  - apply IH. exact Hn'.
 Qed.
 
-(** * what a journal must do *)
-Definition jn_nocode (jn : journal) : Prop :=
-  NoDup (map je_addr (j_entries jn)) /\
-  forall en, In en (j_entries jn) -> je_cchg en = false /\ forall x, je_pacct en = Some x -> ac_ch x = None.
+Lemma revert_fold_rest l : forall d,
+  let d' := fold_right (fun en d' => revert_entry d' en) d l in
+  d_jnl d' = d_jnl d /\ d_min d' = d_min d /\ d_max d' = d_max d.
+Proof.
+  induction l as [|en t IH]; intros d; cbv zeta; [repeat split|].
+  cbn [fold_right]. destruct (revert_entry_rest (fold_right (fun en0 d' => revert_entry d' en0) d t) en) as [A1 [A2 A3]].
+  destruct (IH d) as [B1 [B2 B3]].
+  rewrite A1, A2, A3. repeat split; assumption.
+Qed.
 
-Definition jrev_ok (jn : journal) (S S' : smap) : Prop :=
-  forall d, db_matches d S -> db_matches (revert_all d jn) S'.
+(** * what a journal must do: applied to the store committed at its height (or to any store with
+    the same tables), it yields the tables of the store committed one height below *)
+Definition jrev_ok (jn : journal) (D D' : db) : Prop :=
+  forall d, db_eq d D -> db_eq (revert_all d jn) D'.
 
 (** * the journal FlushDirtyData produces *)
 Definition flush_entries (m : st) : list jentry :=
@@ -168,16 +223,15 @@ Proof.
   - destruct (IH Hin) as [a' [o' [H1 H2]]]. exists a', o'. split; [right; exact H1 | exact H2].
 Qed.
 
-(** the entry of an object that carries no code *)
-Lemma journal_of_entry m a o en : ObjOk m a o -> snd (journal_of m a o) = Some en ->
+(** the entry of an object *)
+Lemma journal_of_entry {e : env} m a o en : Inv m -> ObjOk m a o -> snd (journal_of m a o) = Some en ->
   en = mkJE a (acct_changed (o_orig o) (o_dirty o))
             (if acct_changed (o_orig o) (o_dirty o) then o_orig o else None)
-            (map (fun kv : bytes * val => (fst kv, orig_of o (fst kv))) (changed_entries o)) false None.
+            (map (fun kv : bytes * val => (fst kv, orig_of o (fst kv))) (changed_entries o))
+            (code_written o) (if code_written o then o_ocode o else None).
 Proof.
-  intros [_ _ _ _ [H1 [H2 [H3 _]]]]. unfold journal_of. cbn [snd]. rewrite H1, H2.
-  assert (Hoc : match o_orig o with Some x => if is_nil (ac_ch x) then None else db_code m a | None => None end = None).
-  { destruct (o_orig o) as [x|]; [rewrite (H3 x eq_refl)|]; reflexivity. }
-  rewrite Hoc. cbn [veqb nb]. replace (bytes_eqb [] []) with true by reflexivity. cbn [negb].
+  intros I Ok. unfold journal_of. cbn [snd]. rewrite (journal_oc m a o I Ok).
+  fold (code_written o).
   destruct (_ || _ || _); [| discriminate]. intro H. inversion H. reflexivity.
 Qed.
 
@@ -189,17 +243,7 @@ Proof.
   reflexivity.
 Qed.
 
-(** keys that did not change read as the flushed value *)
-Lemma unchanged_key_obj_st m a o k : ObjOk m a o -> kget k (changed_entries o) = None -> obj_st m a o k = fl_st m a k.
-Proof.
-  intros Ok Hc. rewrite (changed_lookup o k (ok_nd m a o Ok)) in Hc. unfold obj_st.
-  destruct (kget k (o_dst o)) as [v|] eqn:Ek.
-  - destruct (veqb (orig_of o k) v) eqn:Ev; [| discriminate].
-    rewrite <- (veqb_nb _ _ Ev). eapply orig_of_fl; eassumption.
-  - destruct (kget k (o_ost o)) as [vo|] eqn:Eo; [eapply ok_org; eassumption | reflexivity].
-Qed.
-
-Lemma changed_key_orig m a o k v : ObjOk m a o -> kget k (changed_entries o) = Some v -> nb (orig_of o k) = fl_st m a k.
+Lemma changed_key_orig {e : env} m a o k v : ObjOk m a o -> kget k (changed_entries o) = Some v -> nb (orig_of o k) = fl_st m a k.
 Proof.
   intros Ok Hc. rewrite (changed_lookup o k (ok_nd m a o Ok)) in Hc.
   destruct (kget k (o_dst o)) as [v'|] eqn:Ek; [| discriminate].
@@ -209,125 +253,118 @@ Qed.
 Section FlushJournal.
 Variable e : env.
 
-Lemma acct_rel_same_fields v y y' :
-  sa_nonce y = sa_nonce y' -> sa_bal y = sa_bal y' -> sa_code y' = [] -> acct_rel v y -> acct_rel v y'.
-Proof. intros H1 H2 H3 [A [B D]]. repeat split; congruence. Qed.
-
-Lemma unchanged_acct_views o : acct_changed (o_orig o) (o_dirty o) = false ->
-  (forall x, o_orig o = Some x -> ac_ch x = None) -> (forall x, o_dirty o = Some x -> ac_ch x = None) ->
-  acct_view (cur_acct o) = acct_view (o_orig o).
+(** the journal written by a flush undoes, table entry by table entry, what the commit writes *)
+Theorem flush_journal_exact m h root : Inv m -> Coh m ->
+  jrev_ok (mkJ (flush_entries m) root) (s_db (flush_then_commit e m h)) (s_db m).
 Proof.
-  intros Hc H1 H2. unfold cur_acct. destruct (o_dirty o) as [d|] eqn:Ed; [| reflexivity].
-  destruct (o_orig o) as [x|] eqn:Eo; [| discriminate].
-  rewrite (acct_unchanged_eq x d (H1 x eq_refl) (H2 d eq_refl) Hc). reflexivity.
-Qed.
-
-Theorem flush_journal_ok m s root :
-  Sim e m s ->
-  jrev_ok (mkJ (flush_entries m) root) (sp_cur s) (sp_fl s) /\ jn_nocode (mkJ (flush_entries m) root).
-Proof.
-  intros [I C [Mc1 Mc2] [Mf1 Mf2] Sn Nu].
-  assert (Hno : jn_nocode (mkJ (flush_entries m) root)).
-  { split; [apply flush_entries_NoDup; apply I|]. intros en Hin. cbn [j_entries] in Hin.
-    destruct (In_flush_entries m en Hin) as [a [o [Hio Hj]]].
-    pose proof (inv_objs m I a o (In_aget a o _ (inv_nd_objs m I) Hio)) as Ok.
-    rewrite (journal_of_entry m a o en Ok Hj). cbn [je_cchg je_pacct]. split; [reflexivity|].
-    destruct (ok_code m a o Ok) as [_ [_ [Ho _]]].
-    destruct (acct_changed (o_orig o) (o_dirty o)); [exact Ho | intros; discriminate]. }
-  split; [| exact Hno].
-  intros d [D1 D2 D3 D4]. unfold revert_all. cbn [j_entries].
-  destruct Hno as [Hnd Hall]. cbn [j_entries] in Hnd, Hall.
-  destruct (revert_fold_rest (flush_entries m) d (fun en Hin => proj1 (Hall en Hin))) as [_ [_ [_ Hcode]]].
+  intros I C d [E1 E2 E3].
+  destruct (ftc_fields e m h I) as [F1 [F2 [F3 _]]].
+  pose proof (inv_nd_objs m I) as Hno.
+  pose proof (flush_entries_NoDup m Hno) as Hnd.
+  pose proof (dirty_objs_keys_NoDup m Hno) as Hdn.
+  unfold revert_all. cbn [j_entries].
   constructor.
-  - (* storage *)
-    intros a k. unfold db_st. rewrite (revert_fold_st _ d a k Hnd), (jfind_flush m a (inv_nd_objs m I)).
-    rewrite <- Mf1.
-    assert (Hold : nb (sget (a, k) (d_st d)) = cur_st m a k) by (rewrite Mc1; apply D1).
-    destruct (aget a (s_objs m)) as [o|] eqn:Eo.
-    2:{ rewrite Hold. unfold cur_st. rewrite Eo. reflexivity. }
-    pose proof (inv_objs m I a o Eo) as Ok.
-    assert (Hcur : cur_st m a k = obj_st m a o k) by (unfold cur_st; rewrite Eo; reflexivity).
-    destruct (snd (journal_of m a o)) as [en|] eqn:Ej.
-    + rewrite (journal_of_entry m a o en Ok Ej). cbn [je_pst]. rewrite pst_lookup.
-      destruct (kget k (changed_entries o)) as [v|] eqn:Ec.
-      * rewrite <- (changed_key_orig m a o k v Ok Ec). destruct (orig_of o k); reflexivity.
-      * rewrite Hold, Hcur. apply unchanged_key_obj_st; assumption.
-    + rewrite Hold, Hcur. apply unchanged_key_obj_st; [exact Ok|].
-      assert (Hd : is_dirty m a o = false) by (unfold is_dirty; rewrite Ej; reflexivity).
-      destruct (not_dirty_facts m a o Ok Hd) as [_ Hc]. rewrite Hc. reflexivity.
   - (* account records *)
-    intros a. rewrite (revert_fold_acct _ d a Hnd), (jfind_flush m a (inv_nd_objs m I)).
-    assert (Hsame : acct_view (cur_oacct m a) = acct_view (fl_acct m a) ->
-                    acct_rel (acct_view (aget a (d_acct d))) (sm_acct_get (sp_fl s) a)).
-    { intro Hv. destruct (Mc2 a) as [A1 [A2 A3]]. destruct (Mf2 a) as [B1 [B2 B3]].
-      apply (acct_rel_same_fields _ (sm_acct_get (sp_cur s) a)); try assumption; [| | apply D2]; congruence. }
-    destruct (aget a (s_objs m)) as [o|] eqn:Eo.
-    2:{ apply Hsame. unfold cur_oacct. rewrite Eo. reflexivity. }
-    pose proof (inv_objs m I a o Eo) as Ok. destruct (ok_code m a o Ok) as [_ [_ [Hco Hcd]]].
-    assert (Hcur : cur_oacct m a = cur_acct o) by (unfold cur_oacct; rewrite Eo; reflexivity).
+    intros a. rewrite (revert_fold_acct _ d a Hnd), (jfind_flush m a Hno), E1, F1,
+      (commit_fold_acct _ _ a Hdn), (aget_dirty_objs m a Hno).
+    destruct (aget a (s_objs m)) as [o|] eqn:Eo; [| reflexivity].
+    pose proof (inv_objs m I a o Eo) as Ok.
     destruct (snd (journal_of m a o)) as [en|] eqn:Ej.
-    + rewrite (journal_of_entry m a o en Ok Ej). cbn [je_achg je_pacct].
-      destruct (acct_changed (o_orig o) (o_dirty o)) eqn:Eac.
-      * rewrite (ok_oa m a o Ok). apply Mf2.
-      * apply Hsame. rewrite Hcur, <- (ok_oa m a o Ok). apply unchanged_acct_views; assumption.
-    + apply Hsame. rewrite Hcur, <- (ok_oa m a o Ok).
-      assert (Hd : is_dirty m a o = false) by (unfold is_dirty; rewrite Ej; reflexivity).
-      destruct (not_dirty_facts m a o Ok Hd) as [Hac _]. apply unchanged_acct_views; assumption.
-  - rewrite Hcode. exact D3.
-  - intros a x. rewrite (revert_fold_acct _ d a Hnd).
-    destruct (jfind a (flush_entries m)) as [en|] eqn:Ef; [| apply D4].
-    destruct (je_achg en); [| apply D4].
-    apply find_some in Ef. destruct Ef as [Hin _]. intro Hp. exact (proj2 (Hall en Hin) x Hp).
+    + assert (Hd : is_dirty m a o = true) by (unfold is_dirty; rewrite Ej; reflexivity). rewrite Hd.
+      rewrite (journal_of_entry m a o en I Ok Ej). cbn [je_achg je_pacct].
+      destruct (acct_changed (o_orig o) (o_dirty o)) eqn:Eac; [| reflexivity].
+      rewrite (ok_oa m a o Ok). apply fl_acct_coh. exact C.
+    + assert (Hd : is_dirty m a o = false) by (unfold is_dirty; rewrite Ej; reflexivity). rewrite Hd. reflexivity.
+  - (* code *)
+    intros a. rewrite (revert_fold_code _ d a Hnd), (jfind_flush m a Hno), E2, F3,
+      (commit_fold_code _ _ a Hdn (dirty_written m I)), (aget_dirty_objs m a Hno).
+    destruct (aget a (s_objs m)) as [o|] eqn:Eo; [| reflexivity].
+    pose proof (inv_objs m I a o Eo) as Ok.
+    destruct (snd (journal_of m a o)) as [en|] eqn:Ej.
+    + assert (Hd : is_dirty m a o = true) by (unfold is_dirty; rewrite Ej; reflexivity). rewrite Hd.
+      rewrite (journal_of_entry m a o en I Ok Ej). cbn [je_cchg je_pcode].
+      destruct (code_written o) eqn:Ew; [| reflexivity].
+      rewrite (ok_oc m a o Ok), <- (db_code_cached m a I). reflexivity.
+    + assert (Hd : is_dirty m a o = false) by (unfold is_dirty; rewrite Ej; reflexivity). rewrite Hd. reflexivity.
+  - (* storage *)
+    intros a k. unfold db_st. rewrite (revert_fold_st _ d a k Hnd), (jfind_flush m a Hno).
+    pose proof (E3 a k) as Hd. unfold db_st in Hd.
+    rewrite F2, (commit_fold_st _ _ a k Hdn), (aget_dirty_objs m a Hno) in Hd.
+    destruct (aget a (s_objs m)) as [o|] eqn:Eo; [| exact Hd].
+    pose proof (inv_objs m I a o Eo) as Ok.
+    destruct (snd (journal_of m a o)) as [en|] eqn:Ej.
+    + assert (Hdi : is_dirty m a o = true) by (unfold is_dirty; rewrite Ej; reflexivity). rewrite Hdi in Hd.
+      rewrite (journal_of_entry m a o en I Ok Ej). cbn [je_pst]. rewrite pst_lookup.
+      destruct (kget k (changed_entries o)) as [v|] eqn:Ec; [| exact Hd].
+      change (nb (sget (a, k) (d_st (s_db m)))) with (db_st (s_db m) a k).
+      rewrite <- (fl_st_coh m a k C), <- (changed_key_orig m a o k v Ok Ec). destruct (orig_of o k); reflexivity.
+    + assert (Hdi : is_dirty m a o = false) by (unfold is_dirty; rewrite Ej; reflexivity). rewrite Hdi in Hd. exact Hd.
 Qed.
 End FlushJournal.
 
-(** * the chain of retained journals *)
+(** * the chain of retained journals
+
+    [G h] is the store as it was committed at height [h] (a ghost: only its tables matter). *)
 Definition lo_of (s : spec) : N := if sp_min s <=? 1 then 0 else sp_min s.
 
-Record chain_ok (m : st) (s : spec) : Prop := {
+Section ChainDef.
+Context {e : env}.
+Record chain_okG (G : N -> db) (m : st) (s : spec) : Prop := {
   ck_top : hist_get s (sp_max s) = Some (sp_fl s, sp_prev s);
   ck_minmax : sp_min s <= sp_max s;
+  ck_cur : db_eq (s_db m) (G (sp_max s)) /\ db_matches (G (sp_max s)) (sp_fl s);
   ck_step : forall h, lo_of s < h -> h <= sp_max s ->
      exists jn S r S' r', aget h (d_jnl (s_db m)) = Some jn /\ hist_get s h = Some (S, r) /\
-        hist_get s (h - 1) = Some (S', r') /\ jrev_ok jn S S' /\ jn_nocode jn /\ j_root jn = r;
+        hist_get s (h - 1) = Some (S', r') /\ jrev_ok jn (G h) (G (h - 1)) /\ db_matches (G (h - 1)) S' /\ j_root jn = r;
   ck_root : forall h, lo_of s <= h -> h <= sp_max s -> h <> 0 ->
      exists jn S r, aget h (d_jnl (s_db m)) = Some jn /\ hist_get s h = Some (S, r) /\ j_root jn = r
 }.
+Definition chain_ok (m : st) (s : spec) : Prop := exists G, chain_okG G m s.
+End ChainDef.
 
 Lemma lo_le_min s : lo_of s <= sp_min s.
 Proof. unfold lo_of. destruct (sp_min s <=? 1) eqn:E; lia. Qed.
 
-Lemma chain_frame m m' s s' :
+Lemma chain_frame {e : env} m m' s s' :
   s_db m' = s_db m -> sp_hist s' = sp_hist s -> sp_min s' = sp_min s -> sp_max s' = sp_max s ->
   sp_fl s' = sp_fl s -> sp_prev s' = sp_prev s -> chain_ok m s -> chain_ok m' s'.
 Proof.
-  intros Hd Hh Hmin Hmax Hfl Hp [K1 K2 K3 K4].
+  intros Hd Hh Hmin Hmax Hfl Hp [G [K1 K2 Kc K3 K4]]. exists G.
   assert (Hg : forall h, hist_get s' h = hist_get s h) by (intro h; unfold hist_get; rewrite Hh; reflexivity).
   assert (Hlo : lo_of s' = lo_of s) by (unfold lo_of; rewrite Hmin; reflexivity).
   constructor.
   - rewrite Hg, Hmax, Hfl, Hp. exact K1.
   - rewrite Hmin, Hmax. exact K2.
+  - rewrite Hd, Hmax, Hfl. exact Kc.
   - intros h H1 H2. rewrite Hlo in H1. rewrite Hmax in H2. rewrite Hd, !Hg. apply K3; assumption.
   - intros h H1 H2 H3. rewrite Hlo in H1. rewrite Hmax in H2. rewrite Hd, Hg. apply K4; assumption.
 Qed.
 
 Section Chain.
 Variable e : env.
+Hypothesis kec_ne : forall c, e_kec e c <> [].
+Hypothesis kec_inj : forall c c', e_kec e c = e_kec e c' -> c = c'.
 
 Lemma sim_db_matches m s : Sim e m s -> db_matches (s_db m) (sp_fl s).
 Proof.
-  intros [I C Mc [F1 F2] Sn Nu]. constructor.
+  intros [I C Mc [F1 [F2 F3]] Sn Nu].
+  assert (Hch : forall a, dbch (s_db m) a = fl_ch m a).
+  { intro a. unfold dbch, fl_ch. rewrite (fl_acct_coh m a C). reflexivity. }
+  assert (Hcd : forall a, aget a (d_code (s_db m)) = cached_code m a) by (intro a; apply (db_code_cached m a I)).
+  constructor.
   - intros a k. rewrite <- (fl_st_coh m a k C). apply F1.
   - intros a. rewrite <- (fl_acct_coh m a C). apply F2.
-  - apply I.
-  - apply I.
+  - intros a. rewrite Hcd. apply F3.
+  - intros a. rewrite Hch, Hcd. apply (inv_t1 m I).
+  - intros a. rewrite Hch, Hcd. apply (inv_k1 m I).
 Qed.
 
-Lemma chain0 : chain_ok st0 spec0.
+Lemma chain0 : Sim e st0 spec0 -> chain_ok st0 spec0.
 Proof.
-  constructor; simpl.
+  intro S0. exists (fun _ => s_db st0). constructor; simpl.
   - reflexivity.
   - lia.
+  - split; [apply db_eq_refl | exact (sim_db_matches st0 spec0 S0)].
   - intros h H1 H2. unfold lo_of in H1. simpl in H1. lia.
   - intros h H1 H2 H3. lia.
 Qed.
@@ -349,8 +386,10 @@ Lemma flush_commit_chain m s h :
 Proof.
   intros S K Hh. pose proof (sim_inv e m s S) as I.
   destruct (ftc_journals e m h I) as [Jn Jo]. cbv zeta in Jn, Jo.
-  destruct (flush_journal_ok e m s (root_of e m) S) as [Jrev Jno].
-  destruct K as [K1 K2 K3 K4].
+  pose proof (flush_journal_exact e m h (root_of e m) I (sim_coh e m s S)) as Jrev.
+  pose proof (flush_commit_sim e kec_ne kec_inj m s h S Hh) as S2.
+  pose proof (sim_db_matches _ _ S2) as Dm2.
+  destruct K as [G [K1 K2 [Kc1 Kc2] K3 K4]].
   pose proof (sim_num e m s S) as Nu.
   assert (Hmin : (if s_min m =? 0 then h else s_min m) = (if sp_min s =? 0 then h else sp_min s)).
   { destruct (nu_min m s Nu) as [N5 | [A [B D]]]; [rewrite N5; reflexivity|].
@@ -358,7 +397,8 @@ Proof.
   rewrite Hmin in Jo.
   set (min1 := if sp_min s =? 0 then h else sp_min s) in *.
   set (pr := (10 <? h) && (min1 <? h - 10)) in *.
-  set (s2 := spec_flush_commit e s (root_of e m) (isort n_leb (map fst (dirty_objs m))) h).
+  set (mc := flush_then_commit e m h) in *.
+  set (s2 := spec_flush_commit e s (root_of e m) (isort n_leb (map fst (dirty_objs m))) h) in *.
   assert (E2 : sp_max s2 = h /\ sp_min s2 = (if pr then h - 10 else min1) /\ sp_fl s2 = sp_cur s /\
                sp_prev s2 = root_of e m).
   { unfold s2, spec_flush_commit. cbn [spec_step fst sp_pend sp_max sp_min sp_fl sp_prev]. repeat split. }
@@ -376,10 +416,15 @@ Proof.
     - apply andb_true_iff in Ec. destruct Ec as [Ec1 Ec2]. apply N.ltb_lt in Ec2.
       destruct (h - 10 <=? 1) eqn:Ed; [apply N.leb_le in Ed; lia | lia].
     - destruct (sp_min s <=? 1) eqn:Ee; [apply N.leb_le in Ee; lia | lia]. }
-  constructor.
+  set (G' := fun h' => if h' =? h then s_db mc else G h').
+  assert (HG'h : G' h = s_db mc) by (unfold G'; rewrite N.eqb_refl; reflexivity).
+  assert (HG'o : forall h', h' <> h -> G' h' = G h').
+  { intros h' Hne. unfold G'. destruct (h' =? h) eqn:E; [apply N.eqb_eq in E; contradiction | reflexivity]. }
+  exists G'. constructor.
   - rewrite E2a, Hg, E2c, E2d. destruct (h =? 0) eqn:E; [apply N.eqb_eq in E; contradiction|].
     rewrite N.eqb_refl. reflexivity.
   - rewrite E2a, E2b. unfold pr, min1. destruct ((10 <? h) && _); [lia|]. destruct (sp_min s =? 0); lia.
+  - rewrite E2a, HG'h. split; [apply db_eq_refl | exact Dm2].
   - (* steps *)
     intros h' H1 H2. rewrite E2a in H2.
     assert (Hkeep : pr = true -> h - 10 <= h').
@@ -394,13 +439,16 @@ Proof.
       { destruct (sp_max s =? 0) eqn:E0.
         - apply N.eqb_eq in E0. rewrite E0 in K1. unfold hist_get in K1. simpl in K1. exact K1.
         - destruct (sp_max s =? h) eqn:E1; [apply N.eqb_eq in E1; lia | exact K1]. }
-      split; [exact Jrev|]. split; [exact Jno | reflexivity].
+      rewrite HG'h, (HG'o (sp_max s)) by lia.
+      split; [| split; [exact Kc2 | reflexivity]].
+      intros d Hd. eapply db_eq_trans; [apply (Jrev d Hd) | exact Kc1].
     + assert (H2' : h' <= sp_max s) by lia.
       destruct (K3 h' ltac:(lia) H2') as [jn [S1 [r1 [S1' [r1' [A1 [A2 [A3 [A4 [A5 A6]]]]]]]]]].
       exists jn, S1, r1, S1', r1'. rewrite (Jo h' Hne Hkeep), !Hg.
       assert (h' <> 0) by lia.
       destruct (h' =? 0) eqn:E0; [apply N.eqb_eq in E0; contradiction|].
       destruct (h' =? h) eqn:E1; [apply N.eqb_eq in E1; contradiction|].
+      rewrite (HG'o h' Hne), (HG'o (h' - 1)) by lia.
       split; [exact A1|]. split; [exact A2|]. split; [| tauto].
       destruct (h' - 1 =? 0) eqn:E2.
       * apply N.eqb_eq in E2. rewrite E2 in A3. exact A3.
@@ -421,24 +469,20 @@ Qed.
 End Chain.
 
 (** * the rollback loop walks the chain down *)
-Lemma db_matches_tables d d' S :
-  d_acct d' = d_acct d -> d_st d' = d_st d -> d_code d' = d_code d -> db_matches d S -> db_matches d' S.
+Lemma db_eq_tables d d' D :
+  d_acct d' = d_acct d -> d_st d' = d_st d -> d_code d' = d_code d -> db_eq d D -> db_eq d' D.
 Proof.
-  intros H1 H2 H3 [A B C D]. constructor.
-  - intros a k. unfold db_st. rewrite H2. apply A.
-  - intros a. rewrite H1. apply B.
-  - rewrite H3. exact C.
-  - intros a x. rewrite H1. apply D.
+  intros H1 H2 H3 [A B C]. constructor.
+  - intros a. rewrite H1. apply A.
+  - intros a. rewrite H3. apply B.
+  - intros a k. unfold db_st. rewrite H2. apply C.
 Qed.
 
-Lemma rollback_loop_chain (s : spec) : forall fuel i t d,
+Lemma rollback_loop_chain (G : N -> db) : forall fuel i t d,
   fuel = N.to_nat (i - t) -> t <= i ->
-  (forall h, t < h -> h <= i ->
-     exists jn S r S' r', aget h (d_jnl d) = Some jn /\ hist_get s h = Some (S, r) /\
-        hist_get s (h - 1) = Some (S', r') /\ jrev_ok jn S S' /\ jn_nocode jn) ->
-  (exists S r, hist_get s i = Some (S, r) /\ db_matches d S) ->
-  exists d', rollback_loop fuel i t d = (d', true) /\
-     (exists S r, hist_get s t = Some (S, r) /\ db_matches d' S) /\
+  (forall h, t < h -> h <= i -> exists jn, aget h (d_jnl d) = Some jn /\ jrev_ok jn (G h) (G (h - 1))) ->
+  db_eq d (G i) ->
+  exists d', rollback_loop fuel i t d = (d', true) /\ db_eq d' (G t) /\
      (forall h, h <= t -> aget h (d_jnl d') = aget h (d_jnl d)) /\ d_min d' = d_min d /\
      (t < i -> d_max d' = t).
 Proof.
@@ -447,20 +491,19 @@ Proof.
     split; [reflexivity|]. split; [exact Htop|]. split; [reflexivity|]. split; [reflexivity | lia].
   - assert (Hlt : t < i) by lia.
     cbn [rollback_loop]. destruct (i <=? t) eqn:E; [apply N.leb_le in E; lia|].
-    destruct (Hst i Hlt ltac:(lia)) as [jn [S [r [S' [r' [Hj [H1 [H2 [Hrev [Hnd Hall]]]]]]]]]].
+    destruct (Hst i Hlt ltac:(lia)) as [jn [Hj Hrev]].
     rewrite Hj.
-    destruct Htop as [S0 [r0 [Ht0 Hm0]]]. rewrite H1 in Ht0. inversion Ht0; subst S0 r0.
-    pose proof (Hrev d Hm0) as Hm1. unfold revert_all in Hm1.
-    destruct (revert_fold_rest (j_entries jn) d (fun en Hin => proj1 (Hall en Hin))) as [R1 [R2 [R3 R4]]].
+    pose proof (Hrev d Htop) as Hm1. unfold revert_all in Hm1.
+    destruct (revert_fold_rest (j_entries jn) d) as [R1 [R2 R3]].
     set (d1 := fold_right (fun en d' => revert_entry d' en) d (j_entries jn)) in *.
     set (d2 := mkDb (d_acct d1) (d_code d1) (d_st d1) (adel i (d_jnl d1)) (d_min d1) (i - 1)).
     destruct (IH (i - 1) t d2) as [d' [L1 [L2 [L3 [L4 L5]]]]].
     + lia.
     + lia.
-    + intros h Hh1 Hh2. destruct (Hst h Hh1 ltac:(lia)) as [jn' [Sa [ra [Sb [rb [G1 G2]]]]]].
-      exists jn', Sa, ra, Sb, rb. split; [| exact G2].
+    + intros h Hh1 Hh2. destruct (Hst h Hh1 ltac:(lia)) as [jn' [G1 G2]].
+      exists jn'. split; [| exact G2].
       cbn [d_jnl d2]. rewrite aget_adel, R1. destruct (h =? i) eqn:Eh; [apply N.eqb_eq in Eh; lia | exact G1].
-    + exists S', r'. split; [exact H2|]. apply (db_matches_tables d1); try reflexivity. exact Hm1.
+    + apply (db_eq_tables d1); try reflexivity. exact Hm1.
     + exists d'. split; [exact L1|]. split; [exact L2|]. split; [| split].
       * intros h Hh. rewrite (L3 h Hh). cbn [d_jnl d2]. rewrite aget_adel, R1.
         destruct (h =? i) eqn:Eh; [apply N.eqb_eq in Eh; lia | reflexivity].
@@ -524,16 +567,20 @@ Proof.
   { unfold lo_of. destruct (sp_min s <=? 1) eqn:E1; [lia|]. apply N.leb_gt in E1.
     apply andb_false_iff in Etoo. destruct Etoo as [Et | Et]; [apply N.ltb_ge in Et; exact Et|].
     apply negb_false_iff, andb_true_iff in Et. destruct Et as [Et _]. apply N.eqb_eq in Et. lia. }
-  destruct K as [K1 K2 K3 K4].
-  destruct (rollback_loop_chain s (N.to_nat (s_max m - h)) (s_max m) h (s_db m)) as [d1 [L1 [L2 [L3 [L4 L5]]]]].
+  destruct K as [G [K1 K2 [Kc1 Kc2] K3 K4]].
+  destruct (rollback_loop_chain G (N.to_nat (s_max m - h)) (s_max m) h (s_db m)) as [d1 [L1 [L2 [L3 [L4 L5]]]]].
   - reflexivity.
   - rewrite (nu_max m s Nu). lia.
   - intros h' H1 H2. rewrite (nu_max m s Nu) in H2.
     destruct (K3 h' ltac:(lia) H2) as [jn [Sa [ra [Sb [rb [G1 [G2 [G3 [G4 [G5 _]]]]]]]]]].
-    exists jn, Sa, ra, Sb, rb. tauto.
-  - exists (sp_fl s), (sp_prev s). rewrite (nu_max m s Nu). split; [exact K1 | exact (sim_db_matches e m s S)].
+    exists jn. tauto.
+  - rewrite (nu_max m s Nu). exact Kc1.
   - rewrite L1. cbn [negb].
-    destruct L2 as [Sh [rh [Hh Hm]]]. rewrite Hh.
+    (* the state recorded at [h] *)
+    destruct (K3 (h + 1) ltac:(lia) ltac:(lia)) as [jn1 [Sa1 [ra1 [Sh [rh [_ [_ [Hh [_ [Hmh _]]]]]]]]]].
+    replace (h + 1 - 1) with h in Hh, Hmh by lia.
+    rewrite Hh.
+    pose proof (db_matches_eq d1 (G h) Sh L2 Hmh) as Hm.
     assert (Hdmax : d_max d1 = h) by (apply L5; rewrite (nu_max m s Nu); exact Hlt).
     (* the model's final state, in both branches, is [mf] with the root recorded at [h] *)
     assert (Hfin : exists m',
@@ -557,7 +604,16 @@ Proof.
     destruct S as [I C Mc Mf Sn Nu'].
     assert (Hfl : forall a k, fl_st m' a k = db_st d1 a k) by (intros; subst m'; reflexivity).
     assert (Hfa : forall a, fl_acct m' a = aget a (d_acct d1)) by (intros; subst m'; reflexivity).
-    destruct Hm as [M1 M2 M3 M4].
+    assert (Hfc : forall a, fl_ch m' a = dbch d1 a) by (intros; subst m'; reflexivity).
+    assert (Hcd : forall a, cached_code m' a = aget a (d_code d1)) by (intros; subst m'; reflexivity).
+    destruct Hm as [M1 M2 M3 M4 M5].
+    assert (I' : Inv m').
+    { constructor.
+      - subst m'. constructor.
+      - subst m'. intros a o H. discriminate.
+      - intro a. rewrite Hfc, Hcd. apply M4.
+      - intro a. rewrite Hfc, Hcd. apply M5.
+      - subst m'. intros a v H. discriminate. }
     assert (Hminle : h <> 0 -> sp_min s <= h /\ s_min m = sp_min s).
     { intro Hh0. apply andb_false_iff in Etoo.
       destruct (nu_min m s Nu) as [E | [A _]]; [| lia]. split; [| exact E].
@@ -566,15 +622,14 @@ Proof.
     split; [| split].
     + (* Sim *)
       constructor.
-      * subst m'. constructor; cbn [s_objs s_db s_cache c_code c_acct cache0]; try reflexivity; try assumption.
-        -- constructor.
-        -- intros a o H. discriminate.
-        -- intros a x H. discriminate.
+      * exact I'.
       * subst m'. constructor; cbn [s_cache s_pend c_st c_acct cache0]; try (intros; discriminate). apply C.
-      * cbn [sp_cur]. split.
+      * cbn [sp_cur]. split; [| split].
         -- intros a k. subst m'. change (db_st d1 a k = sm_st_get Sh a k). apply M1.
         -- intros a. subst m'. change (acct_rel (acct_view (aget a (d_acct d1))) (sm_acct_get Sh a)). apply M2.
-      * cbn [sp_fl]. split; [intros a k; rewrite Hfl; apply M1 | intros a; rewrite Hfa; apply M2].
+        -- intros a. assert (Hcc : cur_code m' a = nb (load_code m' a)) by (subst m'; reflexivity).
+           rewrite Hcc, (load_code_cached m' a I'), Hcd. apply M3.
+      * cbn [sp_fl]. split; [intros a k; rewrite Hfl; apply M1 | split; [intros a; rewrite Hfa; apply M2 | intros a; rewrite Hcd; apply M3]].
       * apply (snap_ok_taint' e m m' s Sn); subst m'; try reflexivity; simpl; lia.
       * destruct Nu' as [N1 N2 N3 N4 N5 N6 N7 N8]. subst m'.
         constructor; cbn [s_next s_max s_min s_prev s_db sp_pend sp_next sp_max sp_min sp_prev].
@@ -611,9 +666,10 @@ Proof.
       { intros h' Ha Hb. unfold lo_of in Ha. cbn [sp_min] in Ha. destruct (h =? 0) eqn:E0.
         - apply N.eqb_eq in E0. simpl in Ha. lia.
         - apply N.eqb_neq in E0. split; [exact Ha | exact E0]. }
-      constructor; cbn [sp_max sp_min sp_fl sp_prev].
+      exists G. constructor; cbn [sp_max sp_min sp_fl sp_prev].
       * rewrite Hg by lia. exact Hh.
       * destruct (h =? 0) eqn:E0; [lia|]. apply N.eqb_neq in E0. apply Hminle. exact E0.
+      * subst m'. cbn [s_db]. split; [exact L2 | exact Hmh].
       * intros h' Ha Hb. destruct (Hlo' h' Ha Hb) as [Ha' Hh0].
         destruct (K3 h' Ha' ltac:(lia)) as [jn [Sa [ra [Sb [rb [G1 G2]]]]]].
         exists jn, Sa, ra, Sb, rb. subst m'. cbn [s_db]. rewrite (L3 h' Hb), !Hg by lia. split; [exact G1 | exact G2].
